@@ -67,6 +67,7 @@ EditSessionVerdict(e) ==
                 IF have = {} THEN f.got = 0 ELSE f.got \in have THEN {} ELSE {"find_id_after_" \o st.after})
          \cup (IF \A j \in 1..Len(st.lists) : st.lists[j].got = InOrderNodes(h, st.lists[j].start) THEN {} ELSE {"to_list_after_" \o st.after})
          \cup (IF \A j \in 1..Len(st.roots) : st.roots[j].got = RootOf(h, st.roots[j].start) THEN {} ELSE {"get_root_after_" \o st.after})
+         \cup (IF "sibs" \in DOMAIN st => \A j \in 1..Len(st.sibs) : st.sibs[j].got = Sibling(h, st.sibs[j].start) THEN {} ELSE {"get_sibling_after_" \o st.after})
         : k \in 1..Len(e.steps)}
 
 Verdict(e) == CASE e.typ = "visit" -> VisitVerdict(e)
